@@ -1,4 +1,6 @@
 import Aiorpcx.C09.Exit
+import Aiorpcx.C09.NoConsumer
+import Aiorpcx.C09.Cleanup
 import Aiorpcx.Facts.C09
 /-!
 # C09 — no task outlives its TaskGroup's join
@@ -222,5 +224,190 @@ example :
 example :
     let r := runAll (init .all) [.spawn 0 false [], .join [], .cancelJoiner [0], .finCancel 0 []]
     r.1.joined = true ∧ r.2.getLast? = some [Obs.joinExit true] := by decide
+
+/-! ## Progress: the joiner's algorithm terminates, and it only ever waits for unfinished members
+
+(supporting files: `JStep` - the algorithm as a step relation; `Track` - book-keeping invariant;
+`Fuel` - the termination measure; `Progress`, `JInv`, `NoConsumer`, `Cleanup`) -/
+
+theorem good_reachable (p : Policy) (as : List Action) : Good (runAll (init p) as).1 :=
+  good_runAll _ as (good_init p)
+
+/-- **`G.fuel` is adequate - termination of `join()`'s algorithm.**  For every policy and every
+action sequence, no reaction runs out of fuel: after each action of the environment the joiner's
+algorithm - the `next_done` loop, then the repaired clean-up "cancel every unfinished member of
+`_pending | daemons`, wait for them, look again, until none is left" - comes to rest within
+`G.fuel` steps.  (Measure: `Fuel.lean`, `G.mu`; a running member weighs 3 plus 3 per child it
+spawns when cancelled, a cancelled one 2, a queued finisher 1; every step lowers `mu`, and
+`mu < G.fuel` by `mu_lt_fuel`.) -/
+theorem fuel_adequate (p : Policy) (as : List Action) :
+    ∀ o ∈ (runAll (init p) as).2, Obs.outOfFuel ∉ o :=
+  runAll_noOOF _ as (good_init p)
+
+/-- non-vacuity: a history with two clean-up sweeps (children spawned during cancellation, a
+second cancellation) - nine reactions, none out of fuel, the last one is the join exit -/
+example :
+    let r := runAll (init .all)
+      [.spawn 0 false [⟨100, false⟩, ⟨101, true⟩], .spawn 1 true [], .spawn 2 false [], .join [],
+       .finish 2 .exc [0, 1], .finCancel 0 [], .finCancel 1 [], .extCancel 100 [100, 101],
+       .finCancel 101 []]
+    r.2.length = 9 ∧ (∀ o ∈ r.2, Obs.outOfFuel ∉ o) ∧ r.2.getLast? = some [Obs.joinExit false] := by
+  decide
+
+/-- the fuel bound is what makes the statement non-trivial: with too little fuel the same
+algorithm does report `outOfFuel` -/
+example : Obs.outOfFuel ∈ (G.runJoiner (setJ { wait := .all } (newJoiner .next)) [] 1).2 := by
+  decide
+
+/-- **every reaction runs to completion**: in every reachable state the joiner's algorithm has
+nothing left to do - there is no joiner, or it is parked in `next_done()`, or it has exited, or
+it is awaiting a snapshot of cancelled members one of which has not finished -/
+theorem reaction_completes (p : Policy) (as : List Action) (perm : List Nat) :
+    (runAll (init p) as).1.joinerStep perm = none := by
+  have hg := good_reachable p as
+  rw [joinerStep_none_iff _ perm hg.fixed]
+  exact runAll_quiescent _ as (good_init p) (by simp [G.Quiescent, init])
+
+/-- no `next_done()` caller at all: full semaphore accounting incl. `popped = joinPopped` -/
+theorem ninv_reachable (p : Policy) (as : List Action) (hnc : ∀ a ∈ as, a.isNextDone = false) :
+    NInv true (runAll (init p) as).1 :=
+  ninv_runAll _ as hnc (good_init p) (ninv_init p)
+
+/-- `next_done()` callers that never had to wait: the accounting still holds -/
+theorem ninv_reachable_noParking (p : Policy) (as : List Action) (hnp : NoParking (init p) as) :
+    NInv false (runAll (init p) as).1 :=
+  ninv_runAll_noParking _ as hnp (good_init p) (ninv_init p)
+
+theorem jinv_reachable (p : Policy) (as : List Action) : JInv (runAll (init p) as).1 :=
+  jinv_runAll _ as (good_init p) (jinv_init p)
+
+/-- **No stuck state.**  In a history in which no other task ever had to *wait* in
+`next_done()` (`NoParking`: callers that are served at once are allowed - exactly the situation
+of F12, a caller parked on the semaphore, is excluded), after any reaction a joiner that has not
+exited is waiting for a member that has not finished: either it is parked in the `next_done`
+loop and some *pending* (non-daemon, unfinished) member exists, or it is in
+`cancel_remaining()` / the clean-up awaiting a snapshot of cancelled members of which one has
+not finished. -/
+theorem joiner_waits_only_for_unfinished_of_noParking (p : Policy) (as : List Action)
+    (hnp : NoParking (init p) as) (j : Joiner)
+    (hj : (runAll (init p) as).1.joiner = some j) (hne : j.phase ≠ .exited) :
+    (j.phase = .next ∧ j.blocked = true ∧
+      ∃ m ∈ (runAll (init p) as).1.mem, m.id ∈ (runAll (init p) as).1.pending ∧
+        m.daemon = false ∧ m.status ≠ .done) ∨
+    ((j.phase = .cancelrem ∨ j.phase = .fin) ∧
+      ∃ snap, j.snapshot = some snap ∧
+        ∃ m ∈ (runAll (init p) as).1.mem, m.id ∈ snap ∧ m.status ≠ .done) := by
+  have hg := good_reachable p as
+  have hn := ninv_reachable_noParking p as hnp
+  have hji := jinv_reachable p as
+  have hq : (runAll (init p) as).1.Quiescent :=
+    runAll_quiescent _ as (good_init p) (by simp [G.Quiescent, init])
+  generalize (runAll (init p) as).1 = g at *
+  simp only [G.Quiescent, hj] at hq
+  rcases hq with hb | hx | ⟨hph, snap, hsn, hun⟩
+  · left
+    refine ⟨(hji.blockedNext j hj hb).1, hb, ?_⟩
+    obtain ⟨_, _, hpend⟩ := hn.blocked j hj hb
+    cases hp : g.pending with
+    | nil => exact absurd hp hpend
+    | cons i is =>
+      obtain ⟨m, hm, hid, hd, hs⟩ := hg.tinv.pend i (by simp [G.core, hp])
+      exact ⟨m, hm, by rw [hid]; simp, hd, hs⟩
+  · exact absurd hx hne
+  · right
+    refine ⟨hph, snap, hsn, ?_⟩
+    cases hu : g.unfinished snap with
+    | nil => rw [hu] at hun; simp at hun
+    | cons i is =>
+      have hi : i ∈ g.unfinished snap := by rw [hu]; simp
+      simp only [G.unfinished, List.mem_filter, Bool.not_eq_true'] at hi
+      obtain ⟨m, hm, hid⟩ := hji.snapTracked j snap hj hsn i hi.1
+      refine ⟨m, hm, by rw [hid]; exact hi.1, ?_⟩
+      intro hd
+      have hf : g.find i = some m := by rw [← hid]; exact find_of_mem hg.tinv.nodup hm
+      have := hi.2
+      simp [G.isDone, G.statusOf, hf, hd] at this
+
+/-- the same for histories without any `next_done()` caller (no `Action.nextDone`) -/
+theorem joiner_waits_only_for_unfinished (p : Policy) (as : List Action)
+    (hnc : ∀ a ∈ as, a.isNextDone = false) (j : Joiner)
+    (hj : (runAll (init p) as).1.joiner = some j) (hne : j.phase ≠ .exited) :
+    (j.phase = .next ∧ j.blocked = true ∧
+      ∃ m ∈ (runAll (init p) as).1.mem, m.id ∈ (runAll (init p) as).1.pending ∧
+        m.daemon = false ∧ m.status ≠ .done) ∨
+    ((j.phase = .cancelrem ∨ j.phase = .fin) ∧
+      ∃ snap, j.snapshot = some snap ∧
+        ∃ m ∈ (runAll (init p) as).1.mem, m.id ∈ snap ∧ m.status ≠ .done) :=
+  joiner_waits_only_for_unfinished_of_noParking p as (noParking_of_noNextDone _ as hnc) j hj hne
+
+/-- `NoParking` is observable: a caller has to wait exactly when the action reports
+`nextDoneBlocked`; here a caller that is served at once, before `join()` starts -/
+example :
+    NoParking (init .all) [.spawn 0 false [], .finish 0 .val [], .nextDone 7 [], .spawn 1 false [],
+      .join [], .finish 1 .val []] ∧
+    (runAll (init .all) [.spawn 0 false [], .finish 0 .val [], .nextDone 7 [], .spawn 1 false [],
+      .join [], .finish 1 .val []]).1.joined = true := by
+  refine ⟨?_, by decide⟩
+  simp only [NoParking, Action.isNextDone]
+  decide
+
+/-- non-vacuity of both alternatives: parked in the loop waiting for member 1; in the clean-up
+waiting for the slow member 0 -/
+example :
+    let g := (runAll (init .all) [.spawn 0 false [], .spawn 1 false [], .join [],
+      .finish 0 .val []]).1
+    g.joiner.map (fun j => (j.phase, j.blocked)) = some (.next, true) ∧ g.pending = [1] := by
+  decide
+
+example :
+    let g := (runAll (init .any) [.spawn 0 false [], .spawn 1 false [], .join [],
+      .finish 1 .val [0]]).1
+    g.joiner.map (fun j => (j.phase, j.snapshot)) = some (.fin, some [0]) ∧
+    g.statusOf 0 = some .canc := by decide
+
+/-- **"Cancels the rest".**  In the reaction in which the joiner enters the clean-up of
+`join()` (it was not there before - no joiner yet, in `cancel_remaining()`, or in the `next_done`
+loop - and afterwards it is in the clean-up or has left by the regular exit), every member that
+was in the group when the environment's action had been applied has received a cancellation or
+has finished: none of them is still plainly running.  Holds with competing `next_done()`
+callers too.  (Members spawned later in the same reaction by members being cancelled are caught
+by the next sweep: `join_exit_all_done`.) -/
+theorem cleanup_cancels_every_unfinished (p : Policy) (as : List Action) (a : Action)
+    (hpre : ∀ j, (runAll (init p) as).1.joiner = some j → j.phase = .next ∨ j.phase = .cancelrem)
+    (j' : Joiner) (hj' : (react (runAll (init p) as).1 a).1.joiner = some j')
+    (hph : j'.phase = .fin ∨ j'.phase = .exited) (hab : j'.abandoned = false) :
+    ∀ m ∈ ((runAll (init p) as).1.apply a).1.mem,
+      ∃ m' ∈ (react (runAll (init p) as).1 a).1.mem, m'.id = m.id ∧ m'.status ≠ .run := by
+  have hg := good_reachable p as
+  have hr := reach_runAll _ as (reach_init p)
+  have hji := jinv_reachable p as
+  generalize (runAll (init p) as).1 = g at *
+  have hg1 := good_apply g a hg
+  have hc1 : CInv (g.apply a).1.core := (step_apply g a).preserves hr.inv
+  have hji1 := jinv_apply g a hji hg.tinv
+  have hno := runJoiner_noOOF a.perm _ _ hg1.fixed hg1.tinv (mu_lt_fuel _ hg1.linv)
+  rw [react_fst] at hj' ⊢
+  cases hj1 : (g.apply a).1.joiner with
+  | none =>
+    exfalso
+    have hs : (g.apply a).1.joinerStep a.perm = none := by simp [G.joinerStep, hj1]
+    have : ((g.apply a).1.runJoiner a.perm (g.apply a).1.fuel).1 = (g.apply a).1 := by
+      cases (g.apply a).1.fuel <;> simp [G.runJoiner, hs]
+    rw [this, hj1] at hj'; cases hj'
+  | some j1 =>
+    intro m hm
+    exact cleanup_run a.perm _ _ hg1.fixed hc1 hg1.tinv hji1 hno j1 hj1
+      (apply_preFin g a hji hpre j1 hj1) j' hj' hph hab m hm
+
+/-- non-vacuity: member 2 fails while 0 (which will spawn 100 when cancelled), daemon 1 and 3
+(already reacting to an external cancel) are unfinished; in that reaction 0 and 1 receive the
+cancellation, 3 its second one; 100 appears, running, to be caught by the next sweep -/
+example :
+    let g := (runAll (init .all) [.spawn 0 false [⟨100, false⟩], .spawn 1 true [],
+      .spawn 2 false [], .spawn 3 false [], .extCancel 3 [], .join []]).1
+    let g' := (react g (.finish 2 .exc [0, 1, 3])).1
+    g.joiner.map (·.phase) = some .next ∧ g'.joiner.map (·.phase) = some .fin ∧
+    g'.statusOf 0 = some .canc ∧ g'.statusOf 1 = some .canc ∧ g'.statusOf 3 = some .done ∧
+    g'.statusOf 100 = some .run := by decide
 
 end Aiorpcx.C09
